@@ -45,13 +45,13 @@ class Editor:
         texts = dict[str, str]()
         files = dict[str, models.File]()
         queue = collections.deque([os.path.normpath(path)])
-        visited = set[str]()  # absolute: a relative root and an absolute include may name the same file
+        visited = set[str]()  # real paths: a relative root, an absolute include, //x or a symlink may name the same file
 
         while queue:
             current_path = queue.popleft()
-            if os.path.abspath(current_path) in visited:
+            if os.path.realpath(current_path) in visited:
                 continue
-            visited.add(os.path.abspath(current_path))
+            visited.add(os.path.realpath(current_path))
             with open(current_path, newline='') as f:
                 texts[current_path] = f.read()
             files[current_path] = self._parser.parse(texts[current_path], models.File)
